@@ -459,6 +459,7 @@ scpi_bool_t SCPI_ParamNumber(scpi_t * context, const scpi_choice_def_t * special
 
             break;
         default:
+            SCPI_ErrorPush(context, SCPI_ERROR_DATA_TYPE_ERROR);
             result = FALSE;
     }
 
